@@ -6,7 +6,6 @@ import (
 	"fmt"
 	"go/types"
 	"os"
-	"sort"
 	"strings"
 
 	"golang.org/x/tools/go/ssa"
@@ -326,26 +325,69 @@ func sliceLitElems(v ssa.Value) []ssa.Value {
 // kindsAt: the reflect kinds of `subject` (a kindFact subject such as "V:P1") for which
 // instruction in is reachable, as established by the kind tests dominating it (nil: no kind test).
 func (c *Ctx) kindsAt(in ssa.Instruction, subject string) []int64 {
-	var best []int64
-	for _, f := range c.domFacts(in.Block()) {
+	ks, _ := c.kindSetAt(in.Block(), subject, nil)
+	return ks
+}
+
+// kindSetAt combines ALL dominating kind tests on subject: positive tests (kind ∈ S, possibly a disjunction
+// of edges) intersect, failed equality tests (kind ≠ K, e.g. the cases a switch has already ruled out)
+// exclude. ok=false when no kind test on the subject dominates the block. skip (optional) drops facts that
+// cannot be relied on (clobbered).
+func (c *Ctx) kindSetAt(b *ssa.BasicBlock, subject string, skip func(DomFact) bool) ([]int64, bool) {
+	const nKinds = 27 // reflect.Invalid .. reflect.UnsafePointer
+	in := make([]bool, nKinds)
+	for i := range in {
+		in[i] = true
+	}
+	any := false
+	for _, f := range c.domFacts(b) {
 		alts := f.Alts
 		if alts == nil {
 			alts = []DomFact{f}
 		}
-		var all []int64
-		ok := true
+		// positive: every alternative is a kind test of the subject
+		var union []int64
+		okPos := true
 		for _, a := range alts {
 			sub, ks, isK := c.kindFact(a.Cond, a.Pos)
-			if !isK || sub != subject {
-				ok = false
+			if !isK || sub != subject || (skip != nil && a.If != nil && skip(a)) {
+				okPos = false
 				break
 			}
-			all = append(all, ks...)
+			union = append(union, ks...)
 		}
-		if ok && (best == nil || len(all) < len(best)) {
-			best = all
+		if okPos {
+			any = true
+			keep := make([]bool, nKinds)
+			for _, k := range union {
+				if k >= 0 && k < nKinds {
+					keep[k] = true
+				}
+			}
+			for i := range in {
+				in[i] = in[i] && keep[i]
+			}
+			continue
+		}
+		// negative: a single failed equality test
+		if f.Alts == nil {
+			if sub, ks, isK := c.kindFact(f.Cond, !f.Pos); isK && sub == subject && len(ks) == 1 && !(skip != nil && f.If != nil && skip(f)) {
+				if _, isCall := c.resolve(f.Cond).(*ssa.Call); !isCall { // (a predicate helper's false verdict excludes nothing certain)
+					if ks[0] >= 0 && ks[0] < nKinds {
+						in[ks[0]] = false
+					}
+				}
+			}
 		}
 	}
-	sort.Slice(best, func(i, j int) bool { return best[i] < best[j] })
-	return best
+	if !any {
+		return nil, false
+	}
+	var out []int64
+	for i, v := range in {
+		if v {
+			out = append(out, int64(i))
+		}
+	}
+	return out, true
 }
